@@ -121,6 +121,11 @@ def generate(rng, tier):
             if rng.random() < 0.4:
                 fe, fn_ = pts(rng, npts if rng.random() < 0.25 else rng.randint(2, max(2, npts - 1)))     # sometimes as many forces as data
                 force = [[x + 1 / 128 for x in fe], fn_]
+            if damping is not None and force is None and damping >= 1e-4 and rng.random() < 0.3:
+                # repeated measurements: some locations occur twice (other values, other weights).  Forces sit at EVERY datum; the damped
+                # problem stays well posed
+                for j in range(rng.randint(1, 2)):
+                    es.append(es[j]); ns.append(ns[j])
             kind = "spline" if rng.random() < 0.55 else "vector"
             ncomp = 1 if kind == "spline" else 2
             data = [[rng.randint(-64, 64) / 4.0 for _ in es] for _ in range(ncomp)]
